@@ -91,6 +91,16 @@ def gen_cases(ctx):
                       "len": rng.choice([0, 8, 24]), "plan": None, "mc": rng.choice([None, 0, 1, 2, 3, 4])}
                 msgs.append(ms)
                 continue
+            if plan is None and "foreign" not in ms and len(path) >= 4 and 65 <= t <= 191 \
+                    and net_ref.level(src) < 4 and rng.random() < 0.6:
+                # nothing is lost, the route is long (the NETWORK_ACK takes a while) and, early in
+                # the origin's wait, a foreign frame arrives that it must relay to an absent child:
+                # the failing forward must not change how long the origin waits for its own ACK
+                kids = [src | (c << (3 * net_ref.level(src))) for c in range(1, 6)]
+                absent = [a for a in kids if a not in nodes and a != net_ref.DEFAULT_ADDR]
+                if absent:
+                    ms["foreign"] = {"to": rng.choice(absent), "type": rng.choice([193, 70, 1]),
+                                     "delay_us": rng.choice([200, 1000, 3000]), "trigger": "first_hop"}
             msgs.append(ms)
             if rng.random() < 0.25:
                 # the application sends the same header object again (same id, same type)
@@ -102,6 +112,9 @@ def gen_cases(ctx):
         yield {"nodes": nodes, "msgs": msgs, "tx_timeout": tx_to, "route_timeout": rt_to,
                "mc_off": [a for a in nodes if rng.random() < 0.25],
                "relay": [a for a in nodes if a and rng.random() < 0.35],
+               # multicast_level re-assigned on some nodes (it has no say in unicast routing)
+               "mlevel": {str(a): rng.choice([l for l in range(0, 5) if l != net_ref.level(a)])
+                          for a in nodes if i % 3 == 0 and rng.random() < 0.35},
                "profiles": {str(a): N.rand_profile(rng, base=base) for a in nodes},
                "seed": rng.getrandbits(30)}
 
@@ -119,7 +132,7 @@ def _run(ctx, case, net):
     Hdr = m["structs"].RF24NetworkHeader
     nodes = case["nodes"]
     for a in nodes:
-        def setup(o):
+        def setup(o, a=a):
             o.tx_timeout = case["tx_timeout"]
             o.route_timeout = case["route_timeout"]
             if a in case.get("relay", ()):
@@ -127,12 +140,23 @@ def _run(ctx, case, net):
             if a in case.get("mc_off", ()):
                 o.allow_multicast = False
                 o.node_address = a  # the documented way to apply it (pipe 0 moves to the node's own address)
+            if str(a) in case.get("mlevel", {}):
+                o.multicast_level = case["mlevel"][str(a)]
         net.add("net", a, profile=case["profiles"][str(a)], setup=setup)
     active = {"plan": None, "mid": None, "origin": None, "foreign": None}
     last_hdr = {}
 
     def fault(pkt, rx):
         pl = active["plan"]
+        fo = active["foreign"]
+        if (fo is not None and fo.get("trigger") == "first_hop" and pkt.kind == "data" and len(pkt.payload) >= 8
+                and pkt.src is net.bykey[active["origin"]].radio):
+            h0 = net_ref.unpack_header(pkt.payload)
+            if h0["id"] == active["mid"] and h0["from"] == active["origin"] and h0["type"] != net_ref.NETWORK_ACK:
+                active["foreign"] = None
+                frame = net_ref.pack_header(fo["to"], fo["to"], FOREIGN_ID, fo["type"], 0)
+                net.world.at(pkt.t1 + fo["delay_us"] * W.US + 400 * W.US, net.bykey[active["origin"]].radio.inject_rx, 0, frame)
+                ctx.count("foreign_frames_injected_without_loss")
         if pl is None or pkt.kind != "data" or len(pkt.payload) < 8:
             return False
         h = net_ref.unpack_header(pkt.payload)
